@@ -666,7 +666,9 @@ pub fn exec(sc: &mut dyn ScopeOps, ctx: &mut Ctx<'_>) -> Flow {
                 let (okv, is_mut, inner) = (b(&args, "ok"), b(&args, "mut"), b(&args, "inner"));
                 let via = if (ctx.variant == "panicking" || ctx.variant == "typed") && s(&exp, "res") != "err" { "panicking" } else { "trait" };
                 region().fail_next.set(b(&args, "fail"));
+                CLOSURE_PANICS.with(|c| c.set(b(&args, "pan")));
                 let r = catch_unwind(AssertUnwindSafe(|| sc.try_with(&fam, okv, is_mut, inner, tag, via)));
+                CLOSURE_PANICS.with(|c| c.set(false));
                 region().fail_next.set(false);
                 let mut o = match r {
                     Ok(Ok((res, iaddr))) => {
@@ -748,7 +750,7 @@ pub fn exec(sc: &mut dyn ScopeOps, ctx: &mut Ctx<'_>) -> Flow {
                 let (esz, eal, c0) = (u(&args, "esz"), u(&args, "eal"), u(&args, "cap"));
                 let wrap = Wrap::parse(s(&args, "wrap"));
                 region().fail_next.set(b(&args, "fail"));
-                let r = catch_unwind(AssertUnwindSafe(|| sc.vec_new(esz, eal, c0, wrap)));
+                let r = catch_unwind(AssertUnwindSafe(|| sc.vec_new(esz, eal, c0, wrap, b(&args, "fixed"))));
                 region().fail_next.set(false);
                 let mut o = match r {
                     Ok(Ok(bx)) => {
@@ -778,10 +780,17 @@ pub fn exec(sc: &mut dyn ScopeOps, ctx: &mut Ctx<'_>) -> Flow {
                 let mut o;
                 if let Some(mut ve) = ctx.vecs.remove(&id) {
                     let (plen, pcap, oaddr) = (ve.obj.len(), ve.obj.cap(), ve.obj.addr());
-                    let k = u(&args, "k");
+                    // huge: a reserve that cannot be served ("max": len + additional overflows; "layout": the largest valid array layout)
+                    let huge = s(&args, "huge").to_string();
+                    let k = match huge.as_str() {
+                        "max" => usize::MAX,
+                        "layout" => (isize::MAX as usize + 1 - ve.eal) / ve.esz - plen,
+                        _ => u(&args, "k"),
+                    };
                     let how = s(&args, "how").to_string();
                     let keeps_len = how == "reserve" || how == "reserve_exact";
                     let new_tags: Vec<u8> = match how.as_str() {
+                        "reserve" | "reserve_exact" => Vec::new(),
                         "within_copy" | "within_clone" => ve.tags.iter().take(k).cloned().collect(),
                         "resize" => vec![vtag(id, plen); k],
                         _ => (0..k).map(|j| vtag(id, plen + j)).collect(),
